@@ -51,18 +51,19 @@ type tierCfg struct {
 	freshKeys int
 	files     int // seal -> write file -> load -> unseal round trips through the stored file
 	histories int // operation sequences on ONE question model against a reference model
+	splices   int // several values sealed one after the other in one process, then every cross-combination of two of them
 }
 
 func cfg(tier string) tierCfg {
 	if tier == "thorough" {
-		return tierCfg{sealed: 240, allBytes: true, roundtrip: 6000, questions: 6000, entropy: 600, freshKeys: 6, files: 4000, histories: 6000}
+		return tierCfg{sealed: 240, allBytes: true, roundtrip: 6000, questions: 6000, entropy: 600, freshKeys: 6, files: 4000, histories: 6000, splices: 400}
 	}
-	return tierCfg{sealed: 16, allBytes: false, roundtrip: 1900, questions: 260, entropy: 40, files: 160, histories: 240}
+	return tierCfg{sealed: 16, allBytes: false, roundtrip: 1900, questions: 260, entropy: 40, files: 160, histories: 240, splices: 24}
 }
 
 func (d *D) Count(tier string) int {
 	c := cfg(tier)
-	return c.sealed + c.roundtrip + c.questions + c.entropy + c.files + c.histories
+	return c.sealed + c.roundtrip + c.questions + c.entropy + c.files + c.histories + c.splices
 }
 
 func setPlain(sc *core.Scenario, p string) {
@@ -160,6 +161,43 @@ func (d *D) Base(idx int, ctx *core.Ctx) *core.Scenario {
 	sc := &core.Scenario{Property: "C20", Seed: ctx.Seed, Index: idx, Level: "sealfault", ReplayExact: true, Sealed: map[string]string{}}
 	k := keys[r.Intn(len(keys))]
 	switch {
+	case idx >= c.sealed+c.roundtrip+c.entropy+c.questions+c.files+c.histories:
+		// several answers sealed one after the other for the same key in this process (as
+		// sealing a whole course does), then pieces of one stored value put into another
+		sc.Kind = "splice"
+		k = keys[idx%len(keys)]
+		a := answer(r)
+		if len(a) > 120 {
+			a = a[:120]
+		}
+		b := answer(r)
+		switch idx % 4 {
+		case 0: // same length, different text: the stored values have the same shape
+			bb := []byte(strings.Repeat("x", len(a)))
+			for i := range bb {
+				bb[i] = "abcdefghijklmnopqrstuvwxyz"[r.Intn(26)]
+			}
+			b = string(bb)
+			if b == a {
+				b = "B" + b[1:]
+			}
+		case 1: // single letters, like real answers
+			a, b = string(rune('a'+r.Intn(4))), string(rune('e'+r.Intn(4)))
+		case 2: // the same text sealed twice
+			b = a
+		}
+		if len(b) > 120 {
+			b = b[:120]
+		}
+		if a == "" {
+			a = "a"
+		}
+		if b == "" {
+			b = "b"
+		}
+		setPlain(sc, a)
+		sc.Sealed["plaintext2_b64"] = base64.StdEncoding.EncodeToString([]byte(b))
+		sc.Sealed["warmup"] = fmt.Sprint(r.Intn(3)) // values sealed before the two, in the same process
 	case idx < c.sealed:
 		sc.Kind = "corruption"
 		if idx%4 != 0 {
@@ -428,6 +466,116 @@ func (d *D) runCorruption(sc *core.Scenario, ctx *core.Ctx, allBytes bool) *core
 	for _, bad := range []string{"", "AAAA", "not base64!", strings.Repeat("A", 200)} {
 		if v := checkOpen(bad, sealedValue, plain, "key:garbage"); v != nil {
 			return v
+		}
+	}
+	return nil
+}
+
+// runSplice: two answers are sealed one after the other for the same key in this
+// process (after 0-2 others), as sealing a course does. Then every value made of a
+// head of one stored value and the tail of the other is opened. Such a value is an
+// altered form of BOTH stored values, so unless the two answers are equal it must be
+// rejected: opening to either answer means an altered value yielded an answer that
+// is not the original of the value it was made from.
+func (d *D) runSplice(sc *core.Scenario, ctx *core.Ctx) *core.Violation {
+	plainA := getPlain(sc)
+	pb, _ := base64.StdEncoding.DecodeString(sc.Sealed["plaintext2_b64"])
+	plainB := string(pb)
+	pub, priv := sc.Sealed["public_key"], sc.Sealed["private_key"]
+	sealedA, sealedB := sc.Sealed["sealed_value"], sc.Sealed["sealed_value2"]
+	if sealedA == "" || sealedB == "" {
+		var errA, errB error
+		if p := guard(func() {
+			withEntropy(&entropy{r: prng.Derive(sc.Seed, uint64(sc.Index), 7), limit: -1}, func() {
+				var n int
+				fmt.Sscan(sc.Sealed["warmup"], &n) //nolint:errcheck
+				for i := 0; i < n; i++ {
+					learn.Encrypt(pub, fmt.Sprint("warm-up ", i)) //nolint:errcheck
+				}
+				sealedA, errA = learn.Encrypt(pub, plainA)
+				sealedB, errB = learn.Encrypt(pub, plainB)
+			})
+		}); p != "" {
+			return &core.Violation{Oracle: "no-panic", Signature: "panic:encrypt", Expected: "sealing never crashes", Observed: map[string]any{"panic": p}, Match: map[string]string{"oracle": "panic"}}
+		}
+		if errA != nil || errB != nil {
+			return &core.Violation{Oracle: "roundtrip", Signature: "encrypt-error", Expected: "sealing succeeds for every text",
+				Observed: map[string]any{"error": fmt.Sprint(errA, errB)}, Match: map[string]string{"oracle": "roundtrip"}}
+		}
+		sc.Sealed["sealed_value"], sc.Sealed["sealed_value2"] = sealedA, sealedB // stored so that replay does not depend on re-encryption
+	}
+	// both still open to their own answers (sealing the second must not have disturbed the first)
+	if v := checkOpen(priv, sealedA, plainA, "none"); v != nil {
+		return v
+	}
+	if v := checkOpen(priv, sealedB, plainB, "none"); v != nil {
+		return v
+	}
+	for _, sv := range []struct{ v, p string }{{sealedA, plainA}, {sealedB, plainB}} {
+		got, err := learn.Decrypt(priv, sv.v)
+		if err != nil || got != sv.p {
+			return &core.Violation{Oracle: "roundtrip", Signature: "roundtrip-differs:second-seal", Expected: "unsealing with the matching private key returns the original answer, also when other values were sealed in the same process",
+				Observed: map[string]any{"error": fmt.Sprint(err), "plaintext": short(sv.p), "got": short(got)}, Match: map[string]string{"oracle": "roundtrip"}}
+		}
+	}
+	rawA, _ := base64.StdEncoding.DecodeString(sealedA)
+	rawB, _ := base64.StdEncoding.DecodeString(sealedB)
+	try := func(dir string, pos int) *core.Violation {
+		head, tail := rawA, rawB
+		if dir == "BA" {
+			head, tail = rawB, rawA
+		}
+		if pos > len(head) || pos > len(tail) {
+			return nil
+		}
+		sp := base64.StdEncoding.EncodeToString(append(append([]byte(nil), head[:pos]...), tail[pos:]...))
+		if sp == sealedA || sp == sealedB {
+			return nil
+		}
+		var got string
+		var err error
+		what := fmt.Sprintf("splice:%s@%d", dir, pos)
+		if p := guard(func() { got, err = learn.Decrypt(priv, sp) }); p != "" {
+			return &core.Violation{Oracle: "no-panic", Signature: "panic:decrypt", Expected: "opening a damaged sealed value never crashes",
+				Observed: map[string]any{"panic": p, "damage": what}, Match: map[string]string{"oracle": "panic"}}
+		}
+		if ctx != nil {
+			ctx.Inc("evaluations", 1)
+			ctx.Inc("corrupt:splice:head-of-one-tail-of-another", 1)
+			ctx.Distinct(prng.HashString(sp))
+			ctx.Sched(prng.HashString(fmt.Sprint("splice", dir, pos, len(rawA), len(rawB))))
+		}
+		if err == nil && !(got == plainA && got == plainB) {
+			return &core.Violation{Oracle: "reject-or-original", Signature: "different-plaintext:splice",
+				Expected: "an altered sealed value is rejected or still yields the original answer – never a different one; a value made of the head of one stored value and the tail of another is an altered form of both",
+				Observed: map[string]any{"damage": what, "answer_of_head_value": short(map[string]string{"AB": plainA, "BA": plainB}[dir]), "answer_of_tail_value": short(map[string]string{"AB": plainB, "BA": plainA}[dir]), "opened_to": short(got)},
+				Match:    map[string]string{"oracle": "different-plaintext"}}
+		}
+		return nil
+	}
+	if one := sc.Sealed["corruption"]; one != "" {
+		var dir string
+		var pos int
+		fmt.Sscanf(one, "splice %s %d", &dir, &pos) //nolint:errcheck
+		return try(dir, pos)
+	}
+	if ctx != nil {
+		ctx.Inc("evaluations", 1)
+		ctx.Inc("splice_pairs", 1)
+	}
+	// cut positions inside both values only: a whole value followed by foreign bytes is
+	// "trailing garbage", which the single-value enumeration covers
+	n := len(rawA)
+	if len(rawB) < n {
+		n = len(rawB)
+	}
+	for pos := 1; pos < n; pos++ {
+		core.Heartbeat()
+		for _, dir := range []string{"AB", "BA"} {
+			if v := try(dir, pos); v != nil {
+				sc.Sealed["corruption"] = fmt.Sprintf("splice %s %d", dir, pos)
+				return v
+			}
 		}
 	}
 	return nil
@@ -1043,6 +1191,8 @@ func (d *D) run(sc *core.Scenario, ctx *core.Ctx, tier string) *core.Violation {
 		return d.runHistory(sc, ctx)
 	case "file-roundtrip":
 		return d.runFile(sc, ctx)
+	case "splice":
+		return d.runSplice(sc, ctx)
 	case "corruption":
 		return d.runCorruption(sc, ctx, cfg(tier).allBytes)
 	case "roundtrip":
@@ -1083,7 +1233,7 @@ func (d *D) Check(sc *core.Scenario) *core.Violation {
 // Describe implements core.Driver.
 func (d *D) Describe(ev *core.Evidence, st *core.Stats) {
 	c := st.Counters
-	ev.Coverage["rule"] = "one evaluation = one Decrypt of a damaged sealed value / one Encrypt+Decrypt round trip / one Seal-Unseal sequence on a front matter / one Verify of a generated question file; the damage space of each sampled sealed value is enumerated completely for its classes (every single bit flip, byte overwrites, every truncation length, every single-byte deletion and insertion, length-field and segment damage, base64 text damage, every wrong fixture key); questions are verified for every subset of marked answers; distinct by hash of the damaged value / (question shape, matching set, marked set)"
+	ev.Coverage["rule"] = "one evaluation = one Decrypt of a damaged sealed value / one Encrypt+Decrypt round trip / one Seal-Unseal sequence on a front matter / one Verify of a generated question file; the damage space of each sampled sealed value is enumerated completely for its classes (every single bit flip, byte overwrites, every truncation length, every single-byte deletion and insertion, length-field and segment damage, base64 text damage, every wrong fixture key; for pairs of values sealed one after the other in one process, every head of one joined to the tail of the other); questions are verified for every subset of marked answers; distinct by hash of the damaged value / (question shape, matching set, marked set)"
 	ev.Coverage["sealed_values_enumerated"] = c["sealed_values_enumerated"]
 	ev.Coverage["exhaustive"] = false
 	ev.Coverage["exhaustive_note"] = "exhaustive per sealed value over the single-byte damage classes; sampled over sealed values, answers and keys"
@@ -1096,7 +1246,7 @@ func (d *D) Describe(ev *core.Evidence, st *core.Stats) {
 	faults["entropy-source-failed"] = c["entropy_fault_made_encrypt_fail"]
 	ev.Coverage["faults_injected"] = faults
 	ev.Coverage["probes"] = map[string]int64{"damaged_values_still_opening_to_original": c["damaged_values_still_opening_to_original"], "wrong_key_opened_to_original": c["wrong_key_opened_to_original"],
-		"verifications": c["verifications"], "verifications_of_corrupted_sealed_files": c["verifications_of_corrupted_sealed_files"], "roundtrips": c["roundtrips"], "frontmatter_roundtrips": c["frontmatter_roundtrips"], "file_roundtrips": c["file_roundtrips"], "model_histories": c["model_histories"], "model_history_operations": c["model_history_operations"]}
+		"verifications": c["verifications"], "verifications_of_corrupted_sealed_files": c["verifications_of_corrupted_sealed_files"], "roundtrips": c["roundtrips"], "frontmatter_roundtrips": c["frontmatter_roundtrips"], "file_roundtrips": c["file_roundtrips"], "model_histories": c["model_histories"], "model_history_operations": c["model_history_operations"], "pairs_of_values_sealed_in_one_process_and_spliced": c["splice_pairs"]}
 	ev.Coverage["components"] = map[string][]string{"real": {"learn.Encrypt/Decrypt (RSA-OAEP + AES-GCM envelope)", "questionFrontmatter Seal/Unseal/getAnswer", "QuestionModel: markdown parsing, Verify, verifyChoiceMatch, correctAnswerIndices", "runEvy (the real evaluator produces every output)"},
 		"stub": {"crypto/rand.Reader (seeded stream, made to fail or run short)", "stored sealed value (damaged by the simulator)"}}
 	ev.Assumptions = []string{
